@@ -1,5 +1,7 @@
 package main
 
+import "sort"
+
 // PropertyDef binds a property id to the rule instances that decide its
 // structural clauses.
 type PropertyDef struct {
@@ -73,6 +75,19 @@ func init() {
 			p.ruleM1(c, map[string]bool{"geometry.Segment.Raycast": true, "geometry.Segment.IntersectsSegment": true, "geometry.Segment.Rect": true})
 			p.ruleB1Searcher(c)
 			p.ruleB1(c, nil)
+		},
+	})
+	register(&PropertyDef{
+		ID: "C11", Level: "other",
+		Explanation: "E8 comparison networks (tabulated over all weak orders of their inputs).",
+		Run: func(p *Program, c *Check) {
+			var ids []string
+			for id := range p.e8Rows() {
+				ids = append(ids, id)
+			}
+			sort.Strings(ids)
+			p.ruleE8(c, ids...)
+			c.Exhaustive = true
 		},
 	})
 }
